@@ -1356,6 +1356,41 @@ impl Property for C10 {
         out
     }
 
+    /// libFuzzer input: entry point, schedule, fault (position by byte or by call, kind,
+    /// behaviour afterwards), then the stream text (lossy UTF-8, <= 200 bytes)
+    fn fuzz_decode(data: &[u8]) -> Option<(&'static str, Case, bool)> {
+        let mut b = engine::Bytes::new(data);
+        let entry = b.pick(&ENTRIES);
+        let sched = match b.below(6) {
+            0 => Sched::All,
+            1 => Sched::Fixed(1),
+            2 => Sched::Fixed(2),
+            3 => Sched::Fixed(3),
+            4 => Sched::Fixed(7),
+            _ => {
+                let n = b.below(8);
+                let mut cuts: Vec<usize> = (0..n).map(|_| 1 + b.below(119)).collect();
+                cuts.sort();
+                cuts.dedup();
+                Sched::Cuts(cuts)
+            }
+        };
+        let pos = b.u16();
+        let by_call = b.bool();
+        let kind = b.pick(&Kind::ALL);
+        let after = b.pick(&[After::Sticky, After::CleanEof]);
+        let doc = String::from_utf8_lossy(b.take(200)).into_owned();
+        let at = if by_call { FaultAt::Call(engine::pick_idx(pos, doc.len().min(40) + 2)) } else { FaultAt::Byte(engine::pick_idx(pos, doc.len() + 1)) };
+        let c = Case::Read { doc, target: Target::U, entry, sched, fault: ReadFault { at, kind, after } };
+        if hazardous(&c) {
+            return None; // reader hang of the parser dependency (open C01 finding)
+        }
+        let nt = match &c {
+            Case::Read { doc, target, entry, fault: ReadFault { at: FaultAt::Byte(k), .. }, .. } => prefix_complete(doc, *k, *target, *entry),
+            _ => false,
+        };
+        Some(("fuzz-read-fault", c, nt))
+    }
     fn generate(ctx: &mut Ctx<Self>) {
         let thorough = ctx.tier == engine::Tier::Thorough;
         let scheds = [Sched::Fixed(1), Sched::Fixed(3), Sched::All];
